@@ -87,7 +87,7 @@ def fam(**over):
 
 LP_INVARIANTS = ['FamilyWellFormed', 'OptionsRefine', 'ReportedValid', 'StatusIffFeasible', 'LexOptimal',
                  'FrozenHolds', 'NoMatchingUnlessAllProven', 'Export']
-IP_INVARIANTS = ['IPRefines', 'BoundsAdmit']
+IP_INVARIANTS = ['IPRefines', 'BoundsAdmit', 'PosLosesNothing']
 TEXT_INVARIANTS = ['ReadRender']
 
 
@@ -242,6 +242,8 @@ def both_twodigit(**over):
 
 
 SHIFTS = {(12, 12, 12), (300, 0, 0), (0, 300, 0), (0, 0, 300), (120, 120, 120)}
+# crowd embedding: 33 / 40 extra students on lecturer 1's list (their only choice has upper quota 0)
+CROWDS = {(0, -33, 0), (0, -40, 0)}
 # split embedding: the dummies come after the first built student (active students 1, 257, 258 / 1, 1002, ...)
 SPLITS = {(-255, 0, 0), (-1000, 0, 0), (-10, 0, 0)}
 
